@@ -511,7 +511,7 @@ def array_mean(arr):
     return dispatch("/", (dispatch("sum", (arr,)), len(arr.contents)))
 
 def in_array(x, arr):
-    return any(dispatch("==", (x, e)) for e in arr)
+    return 1 if any(dispatch("==", (x, e)) for e in arr) else 0
 
 def ka_cmp(x, y):
     if dispatch("<", (x, y)):
@@ -702,12 +702,12 @@ register_commutative_op(instant_plus_int, "+", Instant, Integral)
 register_function(instant_minus_quantity, "-", (Instant, Quantity))
 register_function(instant_minus_int, "-", (Instant, Integral))
 
-register_function(operator.eq, "==", (Instant, Instant))
-register_function(operator.ne, "!=", (Instant, Instant))
-register_function(instant_lt, "<", (Instant, Instant))
-register_function(instant_leq, "<=", (Instant, Instant))
-register_function(instant_gt, ">", (Instant, Instant))
-register_function(instant_geq, ">=", (Instant, Instant))
+register_function(intify(operator.eq), "==", (Instant, Instant))
+register_function(intify(operator.ne), "!=", (Instant, Instant))
+register_function(intify(instant_lt), "<", (Instant, Instant))
+register_function(intify(instant_leq), "<=", (Instant, Instant))
+register_function(intify(instant_gt), ">", (Instant, Instant))
+register_function(intify(instant_geq), ">=", (Instant, Instant))
 
 register_function(get_year, "year", (Instant,))
 register_function(get_month, "month", (Instant,))
